@@ -207,10 +207,11 @@ class Check(object):
         lock = open(os.path.join(BUILD, '.coq.lock'), 'w')
         fcntl.flock(lock, fcntl.LOCK_EX)
         try:
-            if not os.path.exists(os.path.join(COQ, 'Makefile.conf.mk')):
-                (ret, out) = self._run(['sh', os.path.join(VERIF, 'setup.sh'), '--project-only'], 120, cwd=VERIF)
-                if ret != 0:
-                    raise CoqError(out)
+            # regenerates coq/Gen/*.v from /repo's current tree (translator) and the project file
+            (ret, out) = self._run(['sh', os.path.join(VERIF, 'setup.sh'), '--project-only'], 300, cwd=VERIF)
+            if ret != 0:
+                raise CoqError(out)
+            self.translator_out = out
             (ret, out) = self._run(['make', '-f', 'Makefile.conf.mk', '-j16'] + list(targets), timeout)
         finally:
             fcntl.flock(lock, fcntl.LOCK_UN)
@@ -317,6 +318,17 @@ class Check(object):
             except OSError:
                 pass
         return results
+
+    def translate_ok(self, target):
+        ''' Outcome of the last translator run (done by coq_make/coq_props) for one target. '''
+        try:
+            with open(os.path.join(BUILD, 'translate_status.json')) as infile:
+                stat = json.load(infile).get(target)
+        except (IOError, ValueError):
+            return (False, 'no translate_status.json')
+        if stat is None:
+            return (False, 'target not run')
+        return (bool(stat['ok']), stat.get('error', ''))
 
     # ------------------------------------------------------------------ verdicts
     def known_match(self, signature):
